@@ -517,14 +517,13 @@ func runScenario(d *driver, kind string) {
 		for k := 0; k < 18; k++ {
 			e := d.newEntry()
 			big := make([]byte, 1<<20)
+			d.r.Read(big) // incompressible: the bundle holds the tiles as they are uploaded (gzip), its size is what counts
 			copy(big, fmt.Sprintf("huge%04d-%d", d.nEntry, k))
-			for i := 32; i < len(big); i += 64 {
-				big[i] = byte(i >> 6) // compressible, not constant
-			}
 			e.Certificate = big
 			d.submit(li, e, false)
 		}
 		d.stats["hugecrash-bundle-mib"] += 18
+		d.round(li)          // the pool rotates: the big entries are in sequencing now
 		d.crashWithin(li, 2) // staging upload, compare-and-swap, then dead
 		d.round(li)
 		if !d.alive(li) {
